@@ -844,7 +844,13 @@ pub fn run(ctx: Ctx) -> ! {
             ("core-div2", 5, 900.0),
         ]
     };
+    // development aid: VERIF_ONLY=<prefix> restricts the plan to the variants whose tag starts with the prefix
+    let only = std::env::var("VERIF_ONLY").ok();
+    let plan: Vec<(&str, usize, f64)> = plan.into_iter().filter(|p| only.as_ref().map(|o| p.0.starts_with(o.as_str())).unwrap_or(true)).collect();
     let mut cov = Map::new();
+    if let Some(o) = &only {
+        cov.insert("restricted_to".into(), json!(o));
+    }
     let (mut executed, mut nontrivial, mut capped) = (0, 0, false);
     let mut bounds = vec![];
     for (i, (tag, len, cap)) in plan.into_iter().enumerate() {
